@@ -105,6 +105,27 @@ fn main() {
             println!("internal+trailing+consecutive separators (leading NOT enabled): parse(\"._0\") = {r:?} (expected Err)");
             if r.is_err() { 0 } else { 1 }
         },
+        // F10: binary::truncate_and_round computed `final_bits - initial_bits` (leading zeros shrink on a rounding carry)
+        #[cfg(feature = "power-of-two")]
+        "f10" => {
+            use core::num::NonZeroUsize;
+            const F2: u128 = lexical_core::NumberFormatBuilder::from_radix(2);
+            let o = lexical_core::WriteFloatOptions::builder().exponent(b'^').max_significant_digits(NonZeroUsize::new(2)).build().unwrap();
+            let r = std::panic::catch_unwind(|| { let mut b = [0u8; 1200]; String::from_utf8_lossy(lexical_core::write_with_options::<f64, F2>(7.5, &mut b, &o)).to_string() });
+            println!("radix 2, max_significant_digits 2: write(7.5) = {:?} (111.1b rounds to 1000b: expected \"1000.0\")", r.as_ref().map_err(|_| "PANIC"));
+            if matches!(&r, Ok(s) if s == "1000.0") { 0 } else { 1 }
+        },
+        // F11: with max_significant_digits the power-of-two writers cut the mantissa at a bit count that is not aligned to the
+        // digits of radix 4/8/16/32 and keep aligning by the unshifted exponent
+        #[cfg(feature = "power-of-two")]
+        "f11" => {
+            use core::num::NonZeroUsize;
+            const F16: u128 = lexical_core::NumberFormatBuilder::from_radix(16);
+            let o = lexical_core::WriteFloatOptions::builder().exponent(b'^').max_significant_digits(NonZeroUsize::new(1)).build().unwrap();
+            let r = std::panic::catch_unwind(|| { let mut b = [0u8; 1200]; String::from_utf8_lossy(lexical_core::write_with_options::<f64, F16>(1.0, &mut b, &o)).to_string() });
+            println!("radix 16, max_significant_digits 1: write(1.0) = {:?} (expected \"1.0\")", r.as_ref().map_err(|_| "PANIC"));
+            if matches!(&r, Ok(s) if s == "1.0") { 0 } else { 1 }
+        },
         _ => { eprintln!("unknown witness"); 2 },
     };
     std::process::exit(if code > 0 { 1 } else { 0 });
